@@ -249,6 +249,16 @@ static void do_partial(const J& g, int64_t idx, FILE* out) {
             Library back = read_gds(fn2.c_str(), 0, 0, NULL, &re);
             w.kv("rerr", (int64_t)re);
             proj_library(w, "proj", back);
+            if (&sub == &subsets[0]) {
+                // the new file carries the requested stamp in BGNLIB but the raw cells keep the stamps
+                // of the file they came from: setting the SAME stamp again must still rewrite every BGNSTR
+                w_file(w, "file", fn2);
+                ErrorCode te = ErrorCode::NoError;
+                gds_timestamp(fn2.c_str(), &tt, &te);
+                w.kv("rs_err", (int64_t)te);
+                w_tm(w, "rs_new", tt);
+                w_file(w, "restamped", fn2);
+            }
             w.end_obj();
             back.free_all();
             nl.clear();
